@@ -60,6 +60,12 @@ CHECKS = {
    design_ref="DESIGN.md section 4 C08",
    note="Assumed: NumPy result dtypes depend only on operand dtypes (NEP 50) - one witness per dtype tuple decides a case; compositionality of get_type. Exhaustive finite case analysis, not SMT. Known findings (open): maximum/minimum of operands of different widths (the builtin max/min returns an operand unchanged). Integer, list/item and bitwise kinds not covered.",
    technique="contract-based verification by exhaustive abstract case analysis: static type (real get_type) vs dtype of the executed emitted code, per kind and operand dtype tuple; induction over the graph"),
+ "C05": dict(
+   category="proof",
+   text="Induction over the graph with finite, separately decided obligations: every string template of the Python, NumPy and C++ kind tables parses/compiles (g++ for float and double), has the operator or library function and operand order of an independent spec table (AST comparison), names an existing library function and evaluates like the kind's reference semantics on a grid of special and asymmetric operands (bit patterns); the real PrinterBase.tostring step, run for one node with the recursive calls replaced by their contract, binds a needed reference exactly once, after its operands, never re-binds a defined name and emits debug assertions for that name only (all kinds x need_ref x debug x operand states, three targets); shared sub-expressions get need_ref; Context._register_reference returns a name owned by this expression only and changes nothing else (exhaustive ghost states).",
+   design_ref="DESIGN.md section 4 C05",
+   note="Primitive-library semantics (math, NumPy, libm) are assumed; templates are proved to name the right primitive with operands in order. The step from these contracts to 'the emitted program evaluates the graph' is an induction argument, not mechanised. Not under contract: callable templates (upcast/downcast/list/item), make_apply wrappers, integer/bitwise kinds, value-text round trip.",
+   technique="contract-based deductive verification by structural induction: per-template obligations decided by parser/compiler + spec tables, printer-step contract on the real code with callee contracts, exhaustive ghost-state enumeration for name registration"),
 }
 NA_PENDING = "check not built yet in this session (planned, see DESIGN.md section 4)"
 NA = {
